@@ -57,11 +57,15 @@ def tables(sid: str) -> tuple:
     return ('T', 'U') if sid == 'join' else ('T',)
 
 
-def write_sqlite(path: str, content: dict, suffix: str = '') -> None:
+def write_sqlite(path: str, content: dict, suffix: str = '', drop_only: bool = False) -> None:
     """(Re)write the tables t<suffix>/u<suffix> of the database file (other tables of the file are kept)."""
     con = sqlite3.connect(path)
     con.execute(f'drop table if exists t{suffix}')
     con.execute(f'drop table if exists u{suffix}')
+    if drop_only:
+        con.commit()
+        con.close()
+        return
     con.execute(f'create table t{suffix} (a integer, b integer, c text)')
     con.execute(f'create table u{suffix} (a integer, d integer)')
     con.executemany(f'insert into t{suffix} values (?, ?, ?)', content['T'])
